@@ -227,6 +227,9 @@ def gen_value(rng, n):
     return bytes(rng.randrange(256) for _ in range(L))
 def gen_inner(rng, request, observe="rand"):
     opts = []
+    if observe == "rand" and rng.random() < 0.1:
+        # bare message: one byte of plaintext, the shortest ciphertext there is (tag_bytes + 1)
+        return {"code": rng.choice([1, 2, 4]) if request else rng.choice([65, 66, 67, 68, 132]), "opts": [], "payload": ""}
     if request:
         code = rng.choice([1, 1, 2, 3, 4, 5, 6, 7])
         if rng.random() < 0.5: opts.append([3, gen_value(rng, 3)])
